@@ -1,4 +1,4 @@
-\* C15 / MemRW.tla -- (E) thorough: as MemRW_E with histories of 3 ops
+\* C15 / MemRW.tla -- (E) thorough: as MemRW_E with histories of 3 ops (written data = complement of the current bytes only)
 CONSTANTS
     W = 4
     Lo = 4
@@ -6,7 +6,7 @@ CONSTANTS
     MaxN = 9
     MaxOps = 3
     OpKinds = {"R", "WB", "WW"}
-    DataKinds = {"pat", "inv"}
+    DataKinds = {"inv"}
     ReadVariant = "tail"
     Emit = "none"
     Regs = {}
